@@ -636,6 +636,11 @@ func statusFromError(id uint32, err error) *sshFxpStatusPacket {
 		ret.StatusError.Code = code
 		return ret
 	}
+	if errors.Is(err, os.ErrPermission) {
+		// os.ErrPermission itself, and EACCES / EPERM inside *os.LinkError, *os.SyscallError or any other wrapper.
+		ret.StatusError.Code = sshFxPermissionDenied
+		return ret
+	}
 
 	if errors.Is(err, io.EOF) {
 		ret.StatusError.Code = sshFxEOF
